@@ -193,6 +193,39 @@ func parentHeader(sc scenario, parentRank int, parentTime uint32) *types.Header 
 	return &types.Header{Height: sc.height - 1, MinerAddress: miner, Time: parentTime}
 }
 
+// parentVariants lists the parent headers to try for a scenario: for ordinary heights one per parent rank; where the
+// rotation restarts from rank 0 (height 1, first block of a term) additionally a parent whose miner IS a deputy of the
+// signing term (a re-elected deputy mined the last block of the old term / the genesis miner is a deputy): the
+// statement says the rotation starts from rank 0 there whoever mined the parent.
+func parentVariants(sc scenario, pN, effN int, parentTime uint32) []struct {
+	h    *types.Header
+	rank int
+} {
+	var res []struct {
+		h    *types.Header
+		rank int
+	}
+	for pr := 0; pr < pN; pr++ {
+		rank := pr
+		if sc.fromZero {
+			rank = -1
+		}
+		res = append(res, struct {
+			h    *types.Header
+			rank int
+		}{parentHeader(sc, pr, parentTime), rank})
+	}
+	if sc.fromZero {
+		for r := 0; r < effN; r++ {
+			res = append(res, struct {
+				h    *types.Header
+				rank int
+			}{&types.Header{Height: sc.height - 1, MinerAddress: addr(sc.term, r), Time: parentTime}, -1})
+		}
+	}
+	return res
+}
+
 func classKey(sc scenario, n int, slotMs int64) string {
 	return fmt.Sprintf("%s/n%d/T%d", sc.name, n, slotMs/1000)
 }
@@ -225,12 +258,8 @@ func TestC13Enumerate(t *testing.T) {
 						if sc.name == "height1" {
 							pN = 1
 						}
-						for pr := 0; pr < pN; pr++ {
-							parent := parentHeader(sc, pr, sim.T0)
-							parentRank := pr
-							if sc.fromZero {
-								parentRank = -1
-							}
+						for _, pv := range parentVariants(sc, pN, effN, sim.T0) {
+							parent, parentRank := pv.h, pv.rank
 							parentMs := int64(sim.T0) * 1000
 							end := parentMs + rounds*int64(effN)*slotMs
 							for now := parentMs - slotMs; now <= end; now += 250 {
@@ -280,13 +309,10 @@ func TestC13Random(t *testing.T) {
 		if sc.name == "height1" {
 			pN = 1
 		}
-		pr := rapid.IntRange(0, pN-1).Draw(rt, "parentRank")
 		parentTime := rapid.Uint32Range(1500000000, 4000000000).Draw(rt, "parentTime")
-		parent := parentHeader(sc, pr, parentTime)
-		parentRank := pr
-		if sc.fromZero {
-			parentRank = -1
-		}
+		pvs := parentVariants(sc, pN, effN, parentTime)
+		pr := rapid.IntRange(0, len(pvs)-1).Draw(rt, "parentVariant")
+		parent, parentRank := pvs[pr].h, pvs[pr].rank
 		loops := rapid.Int64Range(0, 2000).Draw(rt, "loops")
 		within := rapid.Int64Range(-int64(slotMs), int64(effN)*slotMs).Draw(rt, "within")
 		now := int64(parentTime)*1000 + loops*int64(effN)*slotMs + within
